@@ -478,12 +478,14 @@ def check_civil(prog, rep):
           and any(n['k'] == 'DeclStmt' and any(x.get('cv') == 146097 for x in f.walk(n)) for n in f.walk())]
     if not fs:
         raise AnalysisBroken('anchor vanished: To(string_view, time_point&) with the civil->days arithmetic')
-    for f in sorted(fs, key=lambda g: g.id)[:1]:
+    thorough = getattr(rep, 'tier', 'quick') == 'thorough'
+    for f in sorted(fs, key=lambda g: g.id)[:(4 if thorough else 1)]:
         rep.touch(f)
         short = re.sub(r'std::chrono::(_V2::)?', '', f.id.split('|')[0].replace('BitSerializer::Convert::Detail::', ''))[:110]
         bad = set()
         n_cells = 0
-        for (mo, dy, hh, mi, ss) in ((1, 1, 0, 0, 0), (12, 31, 23, 59, 59)):
+        combos = [(m, d, h, 59 if h else 0, 59 if h else 0) for m in range(1, 13) for d, h in ((1, 0), (28, 23))] if thorough else [(1, 1, 0, 0, 0), (12, 31, 23, 59, 59)]
+        for (mo, dy, hh, mi, ss) in combos:
             def setup(it, fr, cell):
                 for p in f.params:
                     fr.env[p['d']] = TOP
